@@ -49,6 +49,12 @@ def resourceParameter (fx : Bool) (stringsOffset : Nat) : P Nat := do
 
 def sum (l : List Nat) : Nat := l.foldl (· + ·) 0
 
+/-- `count` of a vertex shader's `additional_data`.  At the pinned commit (+ the C18 fixes) it is
+`shader_data_offset`.  **C14's patch `C14-02` changes it to the constant 8**: when that patch is in
+the tree under test, replace the body by `8` (nothing else in the model or the proofs depends on
+the value — the blob reader is allocation-safe for every count). -/
+def vertexAdditionalLen (shaderDataOffset : Nat) : Nat := shaderDataOffset
+
 /-- `Shader` (imports `shader_data_offset`, `strings_offset`, `is_vertex`); the value is the number
 of name and blob bytes the shader keeps -/
 def shader (fx : Bool) (sdo so : Nat) (isVertex : Bool) : P Nat := do
@@ -64,7 +70,7 @@ def shader (fx : Bool) (sdo so : Nat) (isVertex : Bool) : P Nat := do
   let n4 ← P.count c4 (resourceParameter fx so)
   let a ← P.restorePosition (do
     P.seekStart (sdo + dataOffset)
-    blob fx (if isVertex then sdo else 0))
+    blob fx (if isVertex then vertexAdditionalLen sdo else 0))
   let c ← P.restorePosition (do
     P.seekStart (sdo + dataOffset + (if isVertex then 8 else 0))
     blob fx dataSize)
